@@ -298,8 +298,33 @@ type selInfo struct {
 }
 
 func selects(p *pkg, fd *ast.FuncDecl) []selInfo {
-	var res []selInfo
 	if fd == nil {
+		return nil
+	}
+	return selectsNode(p, fd.Body)
+}
+
+// onceBody returns the body of the function literal passed to <x>.Do(...) in fd
+// (the pattern `c.closeOnce.Do(func() { ... })`), or nil.
+func onceBody(p *pkg, fd *ast.FuncDecl) ast.Node {
+	var body ast.Node
+	if fd == nil {
+		return nil
+	}
+	ast.Inspect(fd.Body, func(n ast.Node) bool {
+		if ce, ok := n.(*ast.CallExpr); ok && body == nil && strings.HasSuffix(exprStr(p.fset, ce.Fun), "Once.Do") && len(ce.Args) == 1 {
+			if fl, ok := ce.Args[0].(*ast.FuncLit); ok {
+				body = fl.Body
+			}
+		}
+		return body == nil
+	})
+	return body
+}
+
+func selectsNode(p *pkg, root ast.Node) []selInfo {
+	var res []selInfo
+	if root == nil {
 		return res
 	}
 	var walk func(n ast.Node, depth int)
@@ -337,7 +362,7 @@ func selects(p *pkg, fd *ast.FuncDecl) []selInfo {
 			return true
 		})
 	}
-	walk(fd.Body, 0)
+	walk(root, 0)
 	return res
 }
 
@@ -797,6 +822,7 @@ func main() {
 	emitSelects(o, "sel_Recv", selects(g, g.anyFunc("GoBackNConn", "Recv")))
 	emitSelects(o, "sel_clientHandshake", selects(g, g.anyFunc("GoBackNConn", "clientHandshake")))
 	emitSelects(o, "sel_serverHandshake", selects(g, g.anyFunc("GoBackNConn", "serverHandshake")))
+	emitSelects(o, "sel_Close", selectsNode(g, onceBody(g, g.anyFunc("GoBackNConn", "Close"))))
 	emitSelects(o, "sel_waitForSync", selects(g, g.anyFunc("syncer", "waitForSync")))
 	emitSelects(o, "sel_proceedAfterTime", selects(g, g.anyFunc("syncer", "proceedAfterTime")))
 
@@ -847,6 +873,7 @@ func main() {
 	o.f("def ctxarg_sendPacket_sendLoop : List String := %s\n", leanStrList(firstArgs(g,
 		g.anyFunc("GoBackNConn", "sendPacketsForever"), "g.sendPacket")))
 	o.f("def go_start : List String := %s\n", leanStrList(goStmts(g, g.anyFunc("GoBackNConn", "start"))))
+	o.f("def go_Close : List String := %s\n", leanStrList(goStmts(g, g.anyFunc("GoBackNConn", "Close"))))
 	o.f("def go_syncerProcessACK : List String := %s\n", leanStrList(goStmts(g, g.anyFunc("syncer", "processACK"))))
 	o.f("def calls_queueResend : List String := %s\n", leanStrList(calls(g, g.anyFunc("queue", "resend"))))
 	o.f("def calls_queueStop : List String := %s\n", leanStrList(calls(g, g.anyFunc("queue", "stop"))))
